@@ -123,6 +123,10 @@ std::string framesToFrameRange(const Frames &frames,
         end = internal::zfill(framesIt[i], zfill);
         buf << start << "-" << end;
 
+        // A descending range only needs the size of the step
+        if (step < 0) {
+            step = -step;
+        }
         if (step > 1) {
             buf << "x" << step;
         }
